@@ -233,7 +233,14 @@ func (vm *VirtualMachine) runCodeInternal(ctx context.Context, codeToRun *compil
 	vm.activateCode(0, startIP, codeObj)
 
 	// Run the entrypoint until completion
-	return vm.eval(vm.initContext(ctx))
+	if err := vm.eval(vm.initContext(ctx)); err != nil {
+		return err
+	}
+	// A blocking builtin (time.sleep, the iterator of a channel) takes the
+	// cancellation of the context as its own end and returns normally. If the
+	// code then completes before the watcher above has set the halt flag, the
+	// evaluation must still report the context's error.
+	return ctx.Err()
 }
 
 // resetForNewCode resets the VM state for running a new code object
@@ -841,7 +848,15 @@ func (vm *VirtualMachine) Call(
 		}
 		vm.stop()
 	}()
-	return vm.callFunction(vm.initContext(ctx), fn, args)
+	result, err = vm.callFunction(vm.initContext(ctx), fn, args)
+	if err == nil {
+		// See runCodeInternal: a call that completed because a blocking builtin
+		// gave up on the cancelled context reports the context's error.
+		if err = ctx.Err(); err != nil {
+			result = nil
+		}
+	}
+	return result, err
 }
 
 // Calls a compiled function with the given arguments. This is used internally
